@@ -496,3 +496,13 @@ Proof.
   - rewrite <- list_fmap_compose. rewrite !elem_of_list_fmap. split; intros [d [-> Hd]]; exists d; (split; [reflexivity|]); apply Hs; exact Hd.
   - rewrite <- list_fmap_compose. rewrite !elem_of_list_fmap. split; intros [d [-> Hd]]; exists d; (split; [reflexivity|]); apply Hs; exact Hd.
 Qed.
+
+(* non-trivial instances of the hypotheses *)
+Example g_nowrap_example :
+  g_nowrap g_new ([GInc 1 3; GShip; GInc 1 2; GInc 4 18446744073709551615] ++ [GShip]) ∧
+  length (g_run g_new ([GInc 1 3; GShip; GInc 1 2; GInc 4 18446744073709551615] ++ [GShip]) []).2 = 2%nat.
+Proof. vm_compute. repeat split; reflexivity. Qed.
+Example p_nowrap_example :
+  p_nowrap p_new ([PInc 1 3; PShip; PDec 1 2; PShip; PInc 4 1] ++ [PShip]) ∧
+  length (p_run p_new ([PInc 1 3; PShip; PDec 1 2; PShip; PInc 4 1] ++ [PShip]) []).2 = 3%nat.
+Proof. vm_compute. repeat split; reflexivity. Qed.
